@@ -1,10 +1,13 @@
 """C16 — a crash during an epoch update never loses the last or best checkpoint.
 
-One case = controller parameters (keep_last_and_best_only, the two file-name formats,
-best_is_train), a metric history and a crash schedule [[epoch, k, torn], ...]: session i is a NEW
-controller on the files left behind, loads the last recorded epoch, trains on and is killed at
-mutating call k of the update for `epoch` (c16_fs: counting proxies for training.os / tempfile /
-open / torch put in place from outside the library). A last session runs to the end.
+One case = controller parameters (keep_last_and_best_only, the two file-name formats — with {epoch},
+constant, or formatted from a metric —, best_is_train, optionally early-stopping / reduce-lr
+parameters, a user entry, explicit epoch= argument), a metric history and a crash schedule
+[[epoch, k, torn(, soft)], ...]: session i is a NEW controller on the files left behind, loads the
+last recorded epoch, trains on and is killed at mutating call k of the update for `epoch` (c16_fs:
+counting proxies for training.os / tempfile / open / torch put in place from outside the library;
+every write of a line of the history file is a mutating call of its own). A last session runs to the
+end and one more controller reads what it left.
 
 Correspondence: per session the executed mutating calls of the killed update, the directory and
 history file left behind, what a new controller reads and loads; per completed update its call
@@ -29,11 +32,20 @@ FORMATS = {
     "const": ("model.pt", "optim.pt"),
     "const_model": ("model.pt", "optim_{epoch:03d}.pt"),
     "const_optim": ("model_{epoch:03d}.pt", "optim.pt"),
+    "metric": ("model_{val_met:.3f}.pt", "optim_{val_met:.3f}.pt"),
+    "metric_model": ("m_{val_met:.3f}_{train_met:.1f}.pt", "optim_{epoch:03d}.pt"),
 }
-MAX_OPS = 14  # 8 (save) + 2 (history) + at most 4 removals
+MAX_OPS = 15  # 8 (save) + 3 (history: open, header line, data row) + at most 4 removals
 
 LEAK = "C16.leak.tmp_or_superseded_after_crash"
 WINDOW = "C16.format_without_epoch.window"
+TORN = "C16.history.torn_row"
+
+# parameters that make the early-stopping / learning-rate columns of a history row (and the optimizer's
+# lr) change from epoch to epoch: the continued run must reproduce them byte for byte
+ES_RLR = {"early_stopping_threshold": 0.05, "early_stopping_patience": 2, "early_stopping_burnin": 1,
+          "reduce_lr_threshold": 0.05, "reduce_lr_patience": 2, "reduce_lr_factor": 0.5,
+          "reduce_lr_cooldown": 1, "reduce_lr_burnin": 1, "log10_learning_rate": -1.0}
 
 
 def has_epoch(fmt):
@@ -84,13 +96,22 @@ def norm_disk(d):
 class C16(PropertyCheck):
     pid = "C16"
     rule = ("histories (hand-made corner cases + random, 1..6 epochs, metrics on a 3-decimal grid, inf at "
-            "epoch 1, ties) x keep_last_and_best_only x 5 file-name format pairs (with / without {epoch}) x "
-            "crash schedules: none; EVERY mutating call k of EVERY update as single crash point (plus torn "
-            "writes); second crashes (quick: in the next two updates after recovery, thorough: everywhere). "
-            "non-trivial: a crash fired after >= 1 executed mutating call; distinct by the case")
+            "epoch 1, ties with the best / with the previous epoch) x keep_last_and_best_only x 7 file-name "
+            "format pairs (with {epoch}, constant, formatted from a metric) x best_is_train x variants "
+            "(early-stopping + reduce-lr parameters active, a user entry, explicit epoch= argument) x crash "
+            "schedules: none; EVERY mutating call k of EVERY update as single crash point - open(csv), the "
+            "write of the header line and the write of the data row are three separate calls -, torn "
+            "torch.save and torn data row, hard kills (later mutations suppressed) and soft interrupts "
+            "(unwinding handlers run); second crashes (quick: in the next two updates after recovery, "
+            "thorough: everywhere); after the schedule the run is continued to the end and one more "
+            "controller reads the result. non-trivial: a crash fired after >= 1 executed mutating call; "
+            "distinct by the case")
     assumptions = [
-        "a crash is simulated in-process: BaseException at mutating call k, every later mutating call "
-        "suppressed; buffered text of the history file reaches the disk in one write at close",
+        "a crash is simulated in-process: BaseException at mutating call k; hard: every later mutating call "
+        "suppressed, soft: the library's unwinding code runs. Every write() on the history file object is "
+        "one mutating call that reaches the disk at once (what the `with` block flushes on an interrupt)",
+        "a history line reaches the file whole or not at all (the torn data row is exercised, predicted by "
+        "the model and reported as known finding C16.history.torn_row; a torn header line is not modelled)",
         "os.replace is atomic; torch.save/torch.load round-trip a state dict; tempfile names are fresh and "
         "never equal a checkpoint name",
         "training is deterministic (the state saved for epoch e is a function of e); history rows are a "
@@ -109,28 +130,33 @@ class C16(PropertyCheck):
     def histories(self, rng, tier):
         """-> list of (validation metrics, format names to combine with)"""
         ALL = tuple(FORMATS)
+        EPOCHLESS = ("const", "metric")
         if tier == "quick":
-            hs = [([500], ("default",)), ([None], ("default", "const")),
+            hs = [([500], ("default",)), ([None], ("default", "const", "metric")),
                   ([500, 400], ("default", "const")), ([400, 500], ("default", "const", "short")),
-                  ([500, 500], ("default",)), ([None, 500, 400], ("default",)),
+                  ([500, 500], ("default", "metric")), ([None, 500, 400], ("default",)),
                   ([500, 400, 450], ALL), ([400, 400, 300, 300], ("default",)),
+                  ([500, 600, 600], ("metric",)), ([500, 600, 500], ("metric",)),
                   ([500, 400, 450, 300, 350, 360], ("default",))]
             nrand, nmax = 1, 4
         else:
             hs = [(h, ALL) for h in (
                 [500], [None], [500, 400], [400, 500], [500, 500], [500, 400, 450], [500, 400, 300],
                 [300, 400, 500], [None, 500, 400], [500, 400, 450, 300, 350, 360], [400, 400, 300, 300],
-                [500, 600, 550, 540], [None, None, 300], [300, 300, 300])]
+                [500, 600, 550, 540], [None, None, 300], [300, 300, 300], [500, 600, 600], [500, 600, 500],
+                [500, 400, 500, 300])]
             nrand, nmax = (12, 6) if tier == "thorough" else (60, 7)
         for i in range(nrand):
             n = rng.randint(2, nmax)
-            h = [rng.choice([None, 100, 200, 300]) if rng.random() < 0.15 else rng.randrange(100, 1000)
+            h = [rng.choice([None, 100, 200, 300]) if rng.random() < 0.15 else
+                 rng.choice([100, 200, 300]) if rng.random() < 0.2 else rng.randrange(100, 1000)
                  for _ in range(n)]
-            hs.append((h, ("default",) if tier == "quick" else ("default", "const") if i % 3 else ALL))
+            hs.append((h, ("default",) if tier == "quick" else ("default",) + EPOCHLESS if i % 3 else ALL))
         return [([[rng.randrange(100, 1000), v] for v in h], fs) for h, fs in hs]
 
     def base_cases(self, rng, tier):
-        for hi, (h, fs) in enumerate(self.histories(rng, tier)):
+        hists = self.histories(rng, tier)
+        for hi, (h, fs) in enumerate(hists):
             for fname in fs:
                 mf, of = FORMATS[fname]
                 for keep in (True, False):
@@ -138,20 +164,77 @@ class C16(PropertyCheck):
                     if fname == "default" and hi % 4 == 3:
                         c["best_is_train"] = True
                     yield c
+        # variants of the call: options that change what a history row holds / how update_for_epoch is called
+        mf, of = FORMATS["default"]
+        var_h = [h for h, _ in hists if len(h) >= 3]
+        for h in (var_h[:1] if tier == "quick" else var_h[:6]):
+            for keep in (True, False):
+                yield {"keep_lb": keep, "model_fmt": mf, "optim_fmt": of, "vals": h, "sched": [],
+                       "user_entry": True, "explicit_epoch": True, "best_is_train": not keep}
+        # early stopping + learning-rate reduction: with these metrics the lr is halved at epoch 3 (and the
+        # optimizer's param group rewritten), the countdown columns change at every epoch
+        es_h = [[[rng.randrange(100, 1000), v] for v in h] for h in
+                ([[500, 510, 520, 530, 300]] if tier == "quick" else
+                 [[500, 510, 520, 530, 300], [500, 520, 530, 540, 300, 560], [500, 400, 450, 300, 350, 360]])]
+        for h in es_h:
+            for keep in ((True,) if tier == "quick" else (True, False)):
+                yield {"keep_lb": keep, "model_fmt": mf, "optim_fmt": of, "vals": h, "sched": [],
+                       "extra_params": dict(ES_RLR)}
 
     @staticmethod
-    def predicted_calls(case, e):
+    def collides(case):
+        mn, on = R.names(case, len(case["vals"]))
+        return len(set(mn[:-1])) < len(mn[:-1]) or len(set(on[:-1])) < len(on[:-1])
+
+    @classmethod
+    def predicted_calls(cls, case, e):
         """Number of mutating calls the update of epoch e makes in a run that never crashed (only used to
         prune crash indices that cannot fire; one index beyond it is kept, which checks the count)."""
-        mn, on = R.names(case, len(case["vals"]))
-        if not case["keep_lb"] or len(set(mn[1:])) < len(mn[1:]) or len(set(on[1:])) < len(on[1:]):
-            return MAX_OPS - 1 if case["keep_lb"] else 10
+        hdr = 1 if e == 1 else 0
+        if not case["keep_lb"] or cls.collides(case):
+            return MAX_OPS - 1 if case["keep_lb"] else 10 + hdr
         ms = metric_ints(case)
         lb, cb = best_epoch(ms, e - 1), best_epoch(ms, e)
         if cb == e - 1:
-            return 10
+            return 10 + hdr
         rm = {e - 1} | ({lb} if lb != cb else set())
-        return 10 + 2 * len([j for j in rm if j >= 1])
+        return 10 + hdr + 2 * len([j for j in rm if j >= 1])
+
+    @staticmethod
+    def first_refusal(case):
+        """First epoch whose update raises 'would overwrite best ... checkpoint' in an uninterrupted run
+        (None if there is none): no crash point of it or of a later epoch can fire. Only used for pruning;
+        what the implementation really does is observed, not assumed."""
+        if not case["keep_lb"]:
+            return None
+        n = len(case["vals"])
+        mn, on = R.names(case, n)
+        ms = metric_ints(case)
+        for e in range(1, n + 1):
+            cb = best_epoch(ms, e)
+            if cb != e and (mn[e] == mn[cb] or on[e] == on[cb]):
+                return e
+        return None
+
+    @classmethod
+    def torn_points(cls, case, e):
+        """Calls that can be executed half-way: the two torch.save and the write of the data row."""
+        if cls.collides(case):      # the row may come first: row at 1 (2 behind a header), saves shifted by it
+            return (2, 5, 8, 10) if e == 1 else (1, 2, 4, 5, 7, 9)
+        return (2, 5, 10) if e == 1 else (2, 5, 9)
+
+    @staticmethod
+    def soft_base(case, tier):
+        """Bases whose every crash point is repeated as a soft interrupt (unwinding handlers run)."""
+        if case.get("extra_params") or case.get("user_entry"):
+            return False
+        fm = (case["model_fmt"], case["optim_fmt"])
+        n = len(case["vals"])
+        if tier != "quick":
+            return fm in (FORMATS["default"], FORMATS["const"], FORMATS["metric"]) and n <= 4
+        if any(v[1] is None for v in case["vals"]) or case.get("best_is_train"):
+            return False
+        return (fm == FORMATS["default"] and n in (1, 3)) or (fm == FORMATS["const"] and n == 2 and not case["keep_lb"])
 
     def cases(self, rng, tier):
         bases = list(self.base_cases(rng, tier))
@@ -159,10 +242,18 @@ class C16(PropertyCheck):
         for b in bases:
             yield b
             n = len(b["vals"])
+            soft = self.soft_base(b, tier)
+            stop = self.first_refusal(b)
             for e in range(1, n + 1):
+                if stop is not None and e >= stop:
+                    if e == stop:       # one schedule confirms that nothing of this update can be interrupted
+                        yield dict(b, sched=[[e, 0, False]])
+                    continue
                 for k in range(min(MAX_OPS, self.predicted_calls(b, e) + 1) + 1):
                     yield dict(b, sched=[[e, k, False]])
-                for k in (2, 5) if has_epoch(b["model_fmt"]) and has_epoch(b["optim_fmt"]) else (2, 4, 5, 7):
+                    if soft:
+                        yield dict(b, sched=[[e, k, False, True]])
+                for k in self.torn_points(b, e):
                     yield dict(b, sched=[[e, k, True]])
         # 2. second crashes
         pool = [b for b in bases if len(b["vals"]) >= 2]
@@ -171,6 +262,9 @@ class C16(PropertyCheck):
         per = max(8, budget // max(1, len(pool)))
         for b in pool:
             n = len(b["vals"])
+            stop = self.first_refusal(b)
+            if stop is not None:
+                n = stop - 1
             allp = [[e1, k1, e2, k2] for e1 in range(1, n + 1) for k1 in range(1, self.predicted_calls(b, e1) + 1)
                     for e2 in range(e1, n + 1) for k2 in range(0, MAX_OPS)]
             if len(allp) > per:
@@ -180,7 +274,7 @@ class C16(PropertyCheck):
                 allp = rng.sample(near, min(len(near), (3 * per) // 4))
                 allp += rng.sample(far, min(len(far), per - len(allp)))
             for e1, k1, e2, k2 in allp:
-                yield dict(b, sched=[[e1, k1, False], [e2, k2, rng.random() < 0.1]])
+                yield dict(b, sched=[[e1, k1, False, rng.random() < 0.15], [e2, k2, rng.random() < 0.1]])
         # 3. three and four crashes (sample)
         for b in pool[: (6 if tier == "quick" else 60)]:
             n = len(b["vals"])
@@ -228,6 +322,10 @@ class C16(PropertyCheck):
             o["masked_by"] = s["masked_by"]
         if s.get("unexpected_mutators"):
             o["unexpected"] = s["unexpected_mutators"]
+        if s.get("idle_ops"):
+            o["idle_ops"] = s["idle_ops"]
+        if s.get("after_ops"):
+            o["after_ops"] = s["after_ops"]
         return o
 
     def run_impl(self, case):
@@ -256,7 +354,8 @@ class C16(PropertyCheck):
         mn, on = R.names(case, n)
         obs = self._impl.get(self.key(case))
         sched = []
-        for i, (e, k, torn) in enumerate(case["sched"]):
+        for i, cr in enumerate(case["sched"]):
+            e, k, torn = cr[0], cr[1], cr[2]       # cr[3] (soft interrupt) changes nothing for the model
             rm = []
             if obs is not None and i < len(obs["sessions"]):
                 rm = [op[1:] for op in obs["sessions"][i]["trace"] if op[0] == "remove"]
@@ -264,7 +363,8 @@ class C16(PropertyCheck):
         return {"op": "c16.run", "case": {
             "quirks": "fixed", "keep_lb": bool(case["keep_lb"]),
             "mkeys": R.keys_of(mn), "okeys": R.keys_of(on),
-            "vals": metric_ints(case), "sched": sched}}
+            "metrics": [[v[0], v[1]] for v in case["vals"]],
+            "best_is_train": bool(case.get("best_is_train", False)), "sched": sched}}
 
     @staticmethod
     def _cmp_session(tag, a, b, out):
@@ -311,6 +411,12 @@ class C16(PropertyCheck):
                     out.append(f"{tag}: {nm} impl={ra[nm]} model={rb[nm]}")
         if a.get("unexpected"):
             out.append(f"{tag}: mutating entry points unknown to the model: {a['unexpected']}")
+        if a.get("idle_ops"):
+            out.append(f"{tag}: mutating calls outside update_for_epoch (constructor / add_entry / load), the "
+                       f"model has none: {a['idle_ops']}")
+        if a.get("after_ops"):
+            out.append(f"{tag}: mutating calls made while the interrupt unwinds, the model has none: "
+                       f"{a['after_ops']}")
 
     def compare(self, case, impl, model):
         if "error" in impl:
@@ -340,6 +446,7 @@ class C16(PropertyCheck):
         def add(what, sig=None):
             fails.append((what, sig))
 
+        all_sessions = [(f"session {i}", s) for i, s in enumerate(impl["sessions"])] + [("final session", impl["final"])]
         msess = None
         if isinstance(model, dict) and "sessions" in model:
             msess = list(model["sessions"]) + [model["final"]]
@@ -369,6 +476,22 @@ class C16(PropertyCheck):
                 return WINDOW if window_seen[0] else None
             return None
 
+        def tsig(idx):
+            """Known finding 'torn data row': the history file of THIS session ends in / contains a partial
+            line, and the model, given the same schedule, has the torn row in the same session and says
+            that no controller can read the file."""
+            j = idx
+            while j >= 0:
+                lines = all_sessions[j][1]["disk"]["csv"] or []
+                m = model_session(j)
+                if "torn" in lines and m is not None and "torn" in (m["disk"]["csv"] or []) \
+                        and not m["rec"].get("readable"):
+                    return TORN
+                if all_sessions[j][1]["status"] != "stuck_init":
+                    break
+                j -= 1
+            return None
+
         def is_mix(st):
             return (isinstance(st, list) and len(st) == 2 and st[0] in [u[0] for u in U]
                     and st[1] in [u[1] for u in U])
@@ -383,7 +506,6 @@ class C16(PropertyCheck):
             return "x"
 
         crashed_before = False
-        all_sessions = [(f"session {i}", s) for i, s in enumerate(impl["sessions"])] + [("final session", impl["final"])]
         for idx, (tag, s) in enumerate(all_sessions):
             ms_ = model_session(idx)
             # ---- exactness / loadability after every COMPLETED update of this process
@@ -429,7 +551,8 @@ class C16(PropertyCheck):
             elif st.startswith("error"):
                 add(f"{tag}: update_for_epoch({s['epoch']}) raised {st[6:]}", "C16.update.raised")
             elif st == "stuck_init":
-                add(f"{tag}: a controller cannot be constructed on the files left behind", "C16.recover.init")
+                add(f"{tag}: a controller cannot be constructed on the files left behind",
+                    tsig(idx) or "C16.recover.init")
             elif st == "stuck_load":
                 add(f"{tag}: the last recorded epoch cannot be loaded ({s['rec'].get('load_last')})",
                     wsig("stuck_load", idx) or "C16.recover.stuck_load")
@@ -440,8 +563,11 @@ class C16(PropertyCheck):
             csvl = s["disk"]["csv"]
             if csvl and csvl[0] != "header":
                 add(f"{tag}: the history file has no header line (lines: {csvl})", "C16.history.no_header")
+            if csvl and ("header" in csvl[1:] or "junk" in csvl):
+                add(f"{tag}: the history file holds a second header / a line that is no data row "
+                    f"(lines: {csvl})", "C16.history.bad_line")
             if "init_error" in r:
-                add(f"{tag}: new controller on the files raises {r['init_error']}", "C16.recover.init")
+                add(f"{tag}: new controller on the files raises {r['init_error']}", tsig(idx) or "C16.recover.init")
             else:
                 k = len(r["rows"])
                 if r["rows"] != list(range(1, k + 1)) or k > n:
@@ -463,6 +589,9 @@ class C16(PropertyCheck):
                         if got != list(U[ep]):
                             add(f"{tag}: history records {k} epochs; loading the {nm} epoch {ep} gives {got}, "
                                 f"saved for it was {list(U[ep])}", wsig(load_kind(got), idx) or "C16.recover.load_" + nm)
+                    if case.get("user_entry") and r.get("user_vals") != [R.user_value(j) for j in r["rows"]]:
+                        add(f"{tag}: user entries read back {r.get('user_vals')}, written "
+                            f"{[R.user_value(j) for j in r['rows']]}", "C16.history.user_entry")
                     if (injective or keep) and not case.get("best_is_train"):
                         if r["load_best_default"] != U[r["best_val"]][0]:
                             g = r["load_best_default"]
@@ -498,6 +627,15 @@ class C16(PropertyCheck):
                 t.append("fmt=" + name)
         if case.get("best_is_train"):
             t.append("best_is_train")
+        for k in ("user_entry", "explicit_epoch", "extra_params"):
+            if case.get(k):
+                t.append(k if k != "extra_params" else "early_stop+reduce_lr")
+        if any(len(c) > 3 and c[3] for c in case["sched"]):
+            t.append("soft_interrupt")
+        if case.get("extra_params"):
+            ref = (self.reference(case)["csv"] or "").splitlines()[1:]
+            if len({l.split(",")[5] for l in ref}) > 1:
+                t.append("lr_reduced_during_run")
         if "error" in impl:
             return t
         for s in impl["sessions"]:
@@ -505,6 +643,10 @@ class C16(PropertyCheck):
                 t.append(f"crash_after_calls={len(s['trace'])}")
                 if any(x[2] == ["torn"] for x in s["disk"]["files"]) or ["torn"] in s["disk"]["tmps"]:
                     t.append("torn_write")
+                if "torn" in (s["disk"]["csv"] or []):
+                    t.append("torn_history_row")
+                if s["disk"]["csv"] == ["header"]:
+                    t.append("header_only_history")
             else:
                 t.append("crash_point_not_reached")
         for s in impl["sessions"] + [impl["final"]]:
@@ -513,7 +655,8 @@ class C16(PropertyCheck):
             for u in s["updates"]:
                 nrm = sum(1 for op in u["trace"] if op[0] == "remove")
                 first = u["trace"][0][0] if u["trace"] else "?"
-                t.append(f"branch:{'info_first' if first == 'open_a' else 'save_first'}:rm{nrm}")
+                hdr = any(op[:2] == ["hwrite", "header"] for op in u["trace"])
+                t.append(f"branch:{'info_first' if first == 'open_a' else 'save_first'}:rm{nrm}{':hdr' if hdr else ''}")
         return sorted(set(t))
 
     def shrink(self, case):
@@ -526,14 +669,17 @@ class C16(PropertyCheck):
         if n > 1:
             # drop the first epoch when no crash refers to it
             if all(c[0] > 1 for c in sch):
-                yield dict(case, vals=case["vals"][1:], sched=[[c[0] - 1, c[1], c[2]] for c in sch])
+                yield dict(case, vals=case["vals"][1:], sched=[[c[0] - 1] + list(c[1:]) for c in sch])
         for i, c in enumerate(sch):
             if c[2]:
-                yield dict(case, sched=sch[:i] + [[c[0], c[1], False]] + sch[i + 1:])
-        if case.get("best_is_train"):
-            c = dict(case)
-            c.pop("best_is_train")
-            yield c
+                yield dict(case, sched=sch[:i] + [[c[0], c[1], False] + list(c[3:])] + sch[i + 1:])
+            if len(c) > 3 and c[3]:
+                yield dict(case, sched=sch[:i] + [list(c[:3])] + sch[i + 1:])
+        for k in ("best_is_train", "user_entry", "explicit_epoch", "extra_params"):
+            if case.get(k):
+                c = dict(case)
+                c.pop(k)
+                yield c
 
 
 CHECK = C16()
